@@ -3,6 +3,10 @@
 import json
 
 CHECKS = {
+ "C01": ("exploration",
+   "Totality search: byte-mutated and unmutated grammar documents with a numeric-attribute and Unicode-sequence dictionary x widths {0..200, 1e5, usize::MAX-k} x decorators x option subsets x CSS sheets through every public entry point, built with overflow checks and debug assertions; plus a deterministic nesting ladder (24 tag patterns to depth 1e4 quick / 1e5 thorough) in child processes on the main thread under time and memory limits. Oracle: Ok or Err(TooNarrow), no panic, no abort, no hang.",
+   "Trusted: watchdog bounds (60 s per in-process case; ladder limits >= 30x measured time); padding only with bounded widths; non-ASCII decorator strings belong to C16. Quadratic memory of deeply nested <sup> is a known finding.",
+   "property-based testing + byte-level mutation fuzzing (proptest) + deterministic nesting ladder in child processes"),
  "C02": ("exploration",
    "Generated-input search (grammar documents and byte-mutated ones, widths 1..=120, bounded option mixes) against the validity predicate `every line of Ok output has display width <= width`. Finds over-wide lines in the explored space; no absence proof.",
    "Trusted: unicode-width as the measure (min of per-char sum and string width, so control characters in link targets are not counted); proptest generators; documents up to ~100 nodes.",
